@@ -64,6 +64,8 @@ def copt(x, f=lambda v: v) -> str:
 
 
 def cerr(name: str) -> str:
+    if name in ("RecursionError", "Timeout"):
+        return "OutOfFuel"        # unbounded recursion / no answer: the model's counterpart is exhausted fuel
     return name if name in ERRS else "OtherError"
 
 
